@@ -601,7 +601,7 @@ func (x *Exec) funcEnv(fr *Frame, st *State, c *Clause) *CEnv {
 	nb := new(int)
 	*nb = x.vc.nfresh * 1000
 	env := &CEnv{x: x, st: st, old: st.secStart, entry: fr.entry, names: map[string]*Val{}, lets: map[string]*CExpr{}, frame: fr, nbound: nb}
-	if env.old == nil {
+	if env.old == nil || fr.inlined {
 		env.old = fr.entry
 	}
 	env.pos = fr.fi.Decl.Body.Lbrace + 1
